@@ -91,6 +91,7 @@ func H_C02_sign1_decoded() {
 	ext := mkExternal("ext")
 	spy := &spyVerifier{alg: Algorithm(vInt64("alg"))}
 	var verr error
+	var again *Sign1Message
 	if tagged {
 		var m Sign1Message
 		err := m.UnmarshalCBOR(vSer(nnTag(18, arr, 0)))
@@ -98,6 +99,7 @@ func H_C02_sign1_decoded() {
 		if err != nil {
 			return
 		}
+		again = &m
 		verr = m.Verify(ext, spy)
 	} else {
 		var m UntaggedSign1Message
@@ -110,12 +112,20 @@ func H_C02_sign1_decoded() {
 	}
 	if verr != nil {
 		vAssert("decoded: verifier not consulted when Verify refuses", spy.calls == 0)
+		// these messages carry no alg: the only ground for refusal is its absence without external data
+		vAssert("decoded: a conforming message is refused for the missing algorithm only", verr == ErrAlgorithmNotFound && len(ext) == 0)
 		vReach("verify refused")
 		return
 	}
 	vAssert("decoded: verifier consulted exactly once", spy.calls == 1)
 	vAssert("decoded: verifier gets the wire signature", vRopeEq(spy.sig, sig))
 	refCheckSigStructure("sign1/decoded", spy.content, "Signature1", [][]byte{protContent}, ext, payload)
+	// a second consumer of the same decoded message sees the same bytes
+	if tagged {
+		spy2 := &spyVerifier{alg: spy.alg}
+		verr2 := again.Verify(ext, spy2)
+		vAssert("decoded: verifying again succeeds and hands over the same structure", verr2 == nil && spy2.calls == 1 && vRopeEq(spy2.content, spy.content))
+	}
 	vReach("end")
 }
 
@@ -215,7 +225,9 @@ func H_C02_signature_decoded() {
 		sv := &spyVerifier{alg: Algorithm(vInt64("v" + vItoa(i) + ".alg"))}
 		spies, verifiers = append(spies, sv), append(verifiers, sv)
 	}
-	if m.Verify(ext, verifiers...) != nil {
+	if verr := m.Verify(ext, verifiers...); verr != nil {
+		// these messages carry no alg: the only ground for refusal is its absence without external data
+		vAssert("sign/decoded: a conforming message is refused for the missing algorithm only", verr == ErrAlgorithmNotFound && len(ext) == 0)
 		vReach("verify refused")
 		return
 	}
